@@ -329,6 +329,33 @@ func init() {
 			}
 		}
 		for i := 0; i < c.N; i++ {
+			if i%8 == 5 {
+				// production of the outcomes by the REAL composers: XR worlds in which the API server
+				// rejects some applies as invalid (the resource must be reported unsynced)
+				xs := c01Gen(c.Rng)
+				for j := range xs.Rounds {
+					if len(xs.Rounds[j].Desired) > 0 && c.Rng.Chance(1, 2) {
+						xs.Rounds[j].Desired[c.Rng.Intn(len(xs.Rounds[j].Desired))].Content = xwInvalidContent
+					}
+				}
+				xo, xm := c01Run(&xs)
+				var keep []Mon
+				for _, m := range xm {
+					if len(m.Sig) > 4 && m.Sig[:4] == "C05:" {
+						keep = append(keep, m)
+					}
+				}
+				inv := 0
+				for _, rd := range xs.Rounds {
+					for _, d := range rd.Desired {
+						if d.Content == xwInvalidContent {
+							inv++
+						}
+					}
+				}
+				c.Emit(xs, xo, keep, fmt.Sprintf("composer/%s/rejected=%d", xs.Mode, min(inv, 4)))
+				continue
+			}
 			if i%4 == 3 {
 				s := c05GenClaim(c.Rng)
 				obs, mons := c05RunClaim(s)
